@@ -554,6 +554,9 @@ def run_seed(seed, profile=None):
             distinct.add((st["op"], cls, "include" in d, "exclude" in d, bool(ev.get("returned")),
                           st.get("glyphset"), corpusworlds.describe(scn["worlds"][st["world"]])))
     out["stats"]["distinct"] = sorted(distinct, key=repr)
+    out["stats"]["interleavings"] = [gen07._digest([scn["mat"]["mode"]] + [
+        [st["op"], scn["filters"][st["f"]]["cls"] if "f" in st else st.get("kind"), bool(st.get("fault")),
+         (ev.get("outcome") or "")[:4]] for st, ev in zip(scn["steps"], res["events"])])]
     out["scenario_digest"] = gen07._digest(scn)
     out["log_digest"] = gen07._digest([[e.get("op"), e.get("outcome"), e.get("returned"), e.get("fired"),
                                         e.get("violations")] for e in res["events"]])
